@@ -6,6 +6,12 @@ package main
 // the bytes each io core wrote, the entry each observer recorded (rendered at once with a fresh JSON
 // encoder), the calls the sampler hook and the hooked core's function received.
 //
+// Every entry is observed TWICE: immediately after its call, and again at the end of the history -- after
+// every later call (of the same logger and of all others) and every later derivation -- by reading what the
+// sinks still hold (ObservedLogs.TakeAll(), re-rendered with the world of the call).  A later entry or a
+// later With that rewrites an earlier recorded entry (aliasing between the recorded Context and the logger's
+// own context array, or the caller's slice, which the harness overwrites after each call) shows only there.
+//
 // Fields are static scripts (enc_gen.go) or MUTABLE marshalers reading a world variable that the program
 // changes between operations, so that the moment of evaluation (With: at derivation; WithLazy: at first use;
 // observer: when the recorded entry is rendered) is visible in the output.
@@ -137,8 +143,10 @@ func (c *c07comp) minHi() bool {
 
 type c07sink struct {
 	kind  int
-	lines [][]byte
+	lines [][]byte // io sinks: a copy of every line written so far (an io.Writer must not retain p)
 	logs  *observer.ObservedLogs
+	mark  int   // lines / recorded entries that existed before the current call
+	cnt   []int // per logging call: how many lines / entries it added to this sink
 }
 
 func (s *c07sink) Write(p []byte) (int, error) {
@@ -208,36 +216,90 @@ func (e *c07env) build(c *c07comp) zapcore.Core {
 
 func (env *c07env) reset() {
 	env.aux = nil
-	for _, s := range env.sinks {
-		s.lines = nil
-	}
 }
 
-// aux events in real order, then the lines of every sink
+func (env *c07env) render(le observer.LoggedEntry) SX {
+	enc := zapcore.NewJSONEncoder(env.ecfg)
+	buf, err := enc.EncodeEntry(le.Entry, le.Context)
+	if err != nil {
+		return L(Str("render error: " + err.Error()))
+	}
+	defer buf.Free()
+	return L(B(buf.Bytes()))
+}
+
+// after one logging call: aux events in real order, then what the call added to every sink.  Nothing is
+// taken away from the sinks: the observers keep their LoggedEntry values (ObservedLogs.All() is read, not
+// TakeAll()), the io sinks their lines, so that collectEnd can read every entry a second time.
 func (env *c07env) collect() []SX {
 	parts := []SX{L(env.aux...)}
 	for _, s := range env.sinks {
 		var ls []SX
 		if s.kind == ckObs {
-			for _, le := range s.logs.TakeAll() {
+			all := s.logs.All()
+			for _, le := range all[s.mark:] {
 				// render the recorded entry now (the world is still that of the call)
-				enc := zapcore.NewJSONEncoder(env.ecfg)
-				buf, err := enc.EncodeEntry(le.Entry, le.Context)
-				if err != nil {
-					ls = append(ls, L(Str("render error: "+err.Error())))
-					continue
-				}
-				ls = append(ls, L(B(buf.Bytes())))
-				buf.Free()
+				ls = append(ls, env.render(le))
 			}
+			s.cnt = append(s.cnt, len(all)-s.mark)
+			s.mark = len(all)
 		} else {
-			for _, ln := range s.lines {
+			for _, ln := range s.lines[s.mark:] {
 				ls = append(ls, L(B(ln)))
 			}
+			s.cnt = append(s.cnt, len(s.lines)-s.mark)
+			s.mark = len(s.lines)
 		}
 		parts = append(parts, L(ls...))
 	}
 	return parts
+}
+
+// the END-OF-HISTORY view: after the whole program has run (every later call, every later derivation),
+// each sink is read again -- the observers through TakeAll() -- and what it holds for the k-th logging call
+// is rendered with the world put back to the value it had at that call (ws[k]).  One element per call:
+// ((sink-0 lines ...) (sink-1 lines ...) ...).
+func (env *c07env) collectEnd(ws []int64) []SX {
+	final := make([][]observer.LoggedEntry, len(env.sinks))
+	for si, s := range env.sinks {
+		if s.kind == ckObs {
+			final[si] = s.logs.TakeAll()
+		}
+	}
+	pos := make([]int, len(env.sinks))
+	var out []SX
+	for k, w := range ws {
+		env.world = w
+		var parts []SX
+		for si, s := range env.sinks {
+			var ls []SX
+			n := 0
+			if k < len(s.cnt) {
+				n = s.cnt[k]
+			}
+			for j := 0; j < n; j++ {
+				i := pos[si] + j
+				switch {
+				case s.kind == ckObs && i < len(final[si]):
+					ls = append(ls, env.render(final[si][i]))
+				case s.kind != ckObs && i < len(s.lines):
+					ls = append(ls, L(B(s.lines[i])))
+				default:
+					ls = append(ls, L(Str("entry no longer held by the sink")))
+				}
+			}
+			pos[si] += n
+			parts = append(parts, L(ls...))
+		}
+		out = append(out, L(parts...))
+	}
+	// entries that appeared from nowhere
+	for si, s := range env.sinks {
+		if s.kind == ckObs && len(final[si]) != pos[si] {
+			out = append(out, L(Str(fmt.Sprintf("observer sink %d holds %d entries at the end, %d were recorded", si, len(final[si]), pos[si]))))
+		}
+	}
+	return out
 }
 
 // ---------- programs ----------
@@ -265,6 +327,20 @@ type c07op struct {
 type c07node struct {
 	plain *zap.Logger
 	sugar *zap.SugaredLogger
+}
+
+// The "caller" of a With / WithOptions(Fields) derivation or of a logging call re-uses the slice it passed:
+// c07run hands every such call a slice of its own and overwrites it afterwards.  Nothing a logger carries and
+// nothing a core recorded may alias the caller's storage (WithLazy is exempt: Logger.WithLazy keeps the
+// caller's slice until the first use, by design).
+func c07own(fs []zapcore.Field) []zapcore.Field { return append([]zapcore.Field(nil), fs...) }
+func c07poison(fs []zapcore.Field, args []interface{}) {
+	for i := range fs {
+		fs[i] = zap.String("POISON", "slice re-used by the caller")
+	}
+	for i := range args {
+		args[i] = zap.String("POISON", "slice re-used by the caller")
+	}
 }
 
 func c07args(fs []zapcore.Field) []interface{} {
@@ -299,7 +375,8 @@ func (o *c07op) sx(sugared bool) SX {
 }
 
 // runs a program on the real zap; returns the per-log observations
-func c07run(comp *c07comp, env *c07env, ops []*c07op) (opx []SX, obs []SX) {
+func c07run(comp *c07comp, env *c07env, ops []*c07op) (opx []SX, obs []SX, end []SX) {
+	var ws []int64
 	core := env.build(comp)
 	nodes := []c07node{{plain: zap.New(core)}}
 	for _, o := range ops {
@@ -311,11 +388,15 @@ func c07run(comp *c07comp, env *c07env, ops []*c07op) (opx []SX, obs []SX) {
 			var nn c07node
 			switch o.step {
 			case stWith:
+				fs := c07own(o.fs.fs)
+				var args []interface{}
 				if sugared {
-					nn.sugar = n.sugar.With(c07args(o.fs.fs)...)
+					args = c07args(fs)
+					nn.sugar = n.sugar.With(args...)
 				} else {
-					nn.plain = n.plain.With(o.fs.fs...)
+					nn.plain = n.plain.With(fs...)
 				}
+				c07poison(fs, args)
 			case stWithLazy:
 				if sugared {
 					nn.sugar = n.sugar.WithLazy(c07args(o.fs.fs)...)
@@ -329,11 +410,13 @@ func c07run(comp *c07comp, env *c07env, ops []*c07op) (opx []SX, obs []SX) {
 					nn.plain = n.plain.Named(string(o.seg))
 				}
 			case stFields:
+				fs := c07own(o.fs.fs)
 				if sugared {
-					nn.sugar = n.sugar.WithOptions(zap.Fields(o.fs.fs...))
+					nn.sugar = n.sugar.WithOptions(zap.Fields(fs...))
 				} else {
-					nn.plain = n.plain.WithOptions(zap.Fields(o.fs.fs...))
+					nn.plain = n.plain.WithOptions(zap.Fields(fs...))
 				}
+				c07poison(fs, nil)
 			case stSugar:
 				if sugared { // generator never does this; keep the program type-correct
 					nn = n
@@ -355,23 +438,31 @@ func c07run(comp *c07comp, env *c07env, ops []*c07op) (opx []SX, obs []SX) {
 		if o.hi {
 			lvl = zapcore.WarnLevel
 		}
+		fs := c07own(o.fs.fs)
+		var args []interface{}
+		if sugared {
+			args = c07args(fs)
+		}
 		switch {
 		case sugared && o.hi:
-			n.sugar.Warnw(string(o.msg), c07args(o.fs.fs)...)
+			n.sugar.Warnw(string(o.msg), args...)
 		case sugared:
-			n.sugar.Infow(string(o.msg), c07args(o.fs.fs)...)
+			n.sugar.Infow(string(o.msg), args...)
 		case o.viaChk:
 			if ce := n.plain.Check(lvl, string(o.msg)); ce != nil {
-				ce.Write(o.fs.fs...)
+				ce.Write(fs...)
 			}
 		case o.hi:
-			n.plain.Warn(string(o.msg), o.fs.fs...)
+			n.plain.Warn(string(o.msg), fs...)
 		default:
-			n.plain.Info(string(o.msg), o.fs.fs...)
+			n.plain.Info(string(o.msg), fs...)
 		}
 		parts := env.collect()
+		c07poison(fs, args) // after the immediate view was taken: only the end-of-history view can show it
 		obs = append(obs, L(parts...))
+		ws = append(ws, o.w)
 	}
+	end = env.collectEnd(ws)
 	return
 }
 
@@ -382,12 +473,13 @@ type c07gen struct {
 	g   *genState
 	// statistics of the case
 	nmut, nns, nlazy int
+	hiPct            int // chance of a call being made at Warn
 }
 
 func newC07gen(r *RNG) *c07gen {
 	ec := c07encCfg()
 	env := &c07env{ecfg: ec.real()}
-	return &c07gen{r: r, env: env, g: &genState{r: r, cfg: ec, size: 1 << 20}}
+	return &c07gen{r: r, env: env, g: &genState{r: r, cfg: ec, size: 1 << 20}, hiPct: 40}
 }
 
 func (g *c07gen) mut(kind int, key string) (zapcore.Field, SX) {
@@ -552,7 +644,7 @@ func (g *c07gen) log(p *c07prog, node int, nf int) {
 	default:
 		msg = hostile(r, 6)
 	}
-	p.ops = append(p.ops, &c07op{log: true, node: node, hi: r.Chance(40), msg: msg, fs: g.fields(nf, 25), w: p.tick(r), viaChk: r.Chance(20)})
+	p.ops = append(p.ops, &c07op{log: true, node: node, hi: r.Chance(g.hiPct), msg: msg, fs: g.fields(nf, 25), w: p.tick(r), viaChk: r.Chance(20)})
 }
 
 func newC07prog() *c07prog {
@@ -614,11 +706,21 @@ func (g *c07gen) randProg(maxNodes int) *c07prog {
 		j := r.Intn(i + 1)
 		order[i], order[j] = order[j], order[i]
 	}
+	// several entries per logger: the later ones must not rewrite the earlier ones (every entry is read
+	// again at the end of the history)
 	for _, k := range order {
 		g.log(p, k, r.Intn(3))
-		if r.Chance(20) {
-			g.log(p, k, 0)
+		if r.Chance(50) {
+			g.log(p, k, r.Range(1, 2))
 		}
+		if r.Chance(15) {
+			g.log(p, k, 1)
+		}
+	}
+	// later derivations from loggers that have already logged; the new loggers log too
+	for i, n := 0, r.Intn(3); i < n; i++ {
+		k := g.randStep(p, r.Intn(len(p.sugared)))
+		g.log(p, k, r.Intn(2))
 	}
 	return p
 }
@@ -668,6 +770,13 @@ func (g *c07gen) siblingProg() *c07prog {
 	for _, par := range parents {
 		g.log(p, par, 0)
 	}
+	// second entries from the same loggers, with call-site fields (the first ones are re-read at the end)
+	for _, k := range kids {
+		g.log(p, k, 1)
+	}
+	for _, par := range parents {
+		g.log(p, par, r.Range(1, 2))
+	}
 	// a grandchild of the first child, then the first child again
 	gc := g.derive(p, kids[0], stWith, g.fields(1, 0), nil)
 	g.log(p, gc, 0)
@@ -675,8 +784,117 @@ func (g *c07gen) siblingProg() *c07prog {
 	return p
 }
 
+// the recorded-entry aliasing pattern: a logger whose accumulated context has spare capacity (its last
+// context-adding step added fewer fields than it already carried -- With(a,b).With(c), With of 3 then 1 -- or
+// it ends a chain built one field at a time), SEVERAL entries with 1..3 call-site fields logged through that
+// same logger and through its Named / Sugar clones (which share its core), interleaved with calls of its
+// parent and of the root, with derivations of children and their calls; one more derivation after all of it.
+// Whether an earlier entry survives is visible only in the end-of-history view.
+func (g *c07gen) relogProg() *c07prog {
+	r := g.r
+	p := newC07prog()
+	g.hiPct = 75
+	ctxStep := func(par, n int) int {
+		st := stWith
+		switch x := r.Intn(10); {
+		case x < 2:
+			st = stWithLazy
+			g.nlazy++
+		case x < 4:
+			st = stFields
+		}
+		return g.derive(p, par, st, g.fields(n, 10), nil)
+	}
+	cur := 0
+	switch r.Intn(3) {
+	case 0: // With(n1).With(n2), n2 < n1
+		n1 := r.Range(2, 5)
+		cur = ctxStep(cur, n1)
+		cur = ctxStep(cur, r.Range(1, n1-1))
+	case 1: // one field at a time (append pattern: len 3 cap 4, len 5 cap 8, ...)
+		for i, d := 0, r.Range(3, 9); i < d; i++ {
+			cur = ctxStep(cur, 1)
+		}
+	default:
+		for i, d := 0, r.Range(2, 5); i < d; i++ {
+			cur = ctxStep(cur, r.Range(1, 3))
+			if r.Chance(20) {
+				cur = g.derive(p, cur, stNamed, c07fields{}, g.seg())
+			}
+		}
+	}
+	if r.Chance(25) {
+		cur = g.derive(p, cur, stSugar, c07fields{}, nil)
+	}
+	hot := []int{cur}
+	if r.Chance(40) {
+		hot = append(hot, g.derive(p, cur, stNamed, c07fields{}, g.seg()))
+	}
+	if r.Chance(30) {
+		hot = append(hot, g.derive(p, cur, stSugar, c07fields{}, nil)) // Desugar when cur is sugared
+	}
+	par := p.parent[cur]
+	for i, n := 0, r.Range(2, 5); i < n; i++ {
+		g.log(p, hot[r.Intn(len(hot))], r.Range(1, 3))
+		switch x := r.Intn(10); {
+		case x < 2:
+			child := ctxStep(hot[r.Intn(len(hot))], r.Range(1, 2))
+			g.log(p, child, r.Intn(2))
+			if r.Chance(30) {
+				hot = append(hot, child)
+			}
+		case x < 4:
+			g.log(p, par, r.Intn(2))
+		case x < 5:
+			g.log(p, 0, 1)
+		}
+	}
+	k := ctxStep(hot[0], r.Range(1, 2))
+	g.log(p, k, 1)
+	return p
+}
+
+// compositions for the programs above: observers directly, in tees, below lazy / hooked / sampler / filter
+func (g *c07gen) relogComp(i int) *c07comp {
+	r := g.r
+	obs := func() *c07comp { return &c07comp{kind: ckObs} }
+	lz := func(inner *c07comp) *c07comp {
+		g.nlazy++
+		return &c07comp{kind: ckLazy, fs: g.fields(r.Range(1, 3), 20), kids: []*c07comp{inner}}
+	}
+	switch i % 4 {
+	case 0:
+		return obs()
+	case 1:
+		switch r.Intn(10) {
+		case 0:
+			return &c07comp{kind: ckTee, kids: []*c07comp{obs(), obs()}}
+		case 1:
+			return &c07comp{kind: ckTee, kids: []*c07comp{obs(), {kind: ckJSON}, {kind: ckConsole}}}
+		case 2:
+			return lz(obs())
+		case 3:
+			return &c07comp{kind: ckHook, kids: []*c07comp{obs()}}
+		case 4:
+			return &c07comp{kind: ckSamp, kids: []*c07comp{obs()}}
+		case 5:
+			return &c07comp{kind: ckFilt, thr: r.Bool(), kids: []*c07comp{obs()}}
+		case 6:
+			return &c07comp{kind: ckTee, kids: []*c07comp{lz(obs()), obs()}}
+		case 7:
+			return &c07comp{kind: ckHook, kids: []*c07comp{{kind: ckTee, kids: []*c07comp{obs(), obs()}}}}
+		case 8:
+			return lz(&c07comp{kind: ckTee, kids: []*c07comp{obs(), {kind: ckJSON}}})
+		default:
+			return &c07comp{kind: ckHook, kids: []*c07comp{lz(&c07comp{kind: ckSamp, kids: []*c07comp{obs()}})}}
+		}
+	default:
+		return g.comp(2, false)
+	}
+}
+
 func (g *c07gen) emit(c *Ctx, comp *c07comp, p *c07prog, class string) {
-	var opx, obs []SX
+	var opx, obs, end []SX
 	var pmsg string
 	panicked := false
 	func() {
@@ -686,7 +904,7 @@ func (g *c07gen) emit(c *Ctx, comp *c07comp, p *c07prog, class string) {
 				panicked = true
 			}
 		}()
-		opx, obs = c07run(comp, g.env, p.ops)
+		opx, obs, end = c07run(comp, g.env, p.ops)
 	}()
 	if panicked {
 		// the case text: ops rendered without having been run (plain/sugared bit unknown past the panic)
@@ -720,13 +938,21 @@ func (g *c07gen) emit(c *Ctx, comp *c07comp, p *c07prog, class string) {
 	if maxKids >= 2 && ctxSteps >= 3 && logs >= 2 {
 		nt = "1"
 	}
-	c.Emit(L(comp.sx(), L(opx...)), L(obs...), map[string]string{
+	c.Emit(L(comp.sx(), L(opx...)), L(L(obs...), L(end...)), map[string]string{
 		"nt": nt, "class": class + ":" + comp.class(), "nodes": fmt.Sprint(len(p.sugared)), "logs": fmt.Sprint(logs),
 		"mut": fmt.Sprint(g.nmut), "ns": fmt.Sprint(g.nns), "lazy": fmt.Sprint(g.nlazy), "sibs": fmt.Sprint(maxKids)})
 }
 
 // ---------- directed corner cases ----------
 func c07directed(c *Ctx) {
+	sfs := func(keys ...string) c07fields { // static string fields (no generator needed)
+		var out c07fields
+		for _, k := range keys {
+			out.fs = append(out.fs, zap.String(k, k+"!"))
+			out.xs = append(out.xs, L(I(4), Str(k), Str(k+"!")))
+		}
+		return out
+	}
 	leafComps := func() []*c07comp {
 		return []*c07comp{
 			{kind: ckJSON}, {kind: ckConsole}, {kind: ckObs},
@@ -738,6 +964,10 @@ func c07directed(c *Ctx) {
 			// an accepting core first, then a hooked core whose wrapped core declines Info entries
 			{kind: ckTee, kids: []*c07comp{{kind: ckJSON}, {kind: ckHook, kids: []*c07comp{{kind: ckFilt, thr: true, kids: []*c07comp{{kind: ckObs}}}}}}},
 			{kind: ckTee, kids: []*c07comp{{kind: ckObs}, {kind: ckSamp, kids: []*c07comp{{kind: ckHook, kids: []*c07comp{{kind: ckFilt, thr: true, kids: []*c07comp{{kind: ckConsole}}}}}}}}},
+			// observers in a tee, below a lazy core (with two fields of its own) and below a hooked lazy core
+			{kind: ckTee, kids: []*c07comp{{kind: ckObs}, {kind: ckObs}}},
+			{kind: ckLazy, fs: sfs("l1", "l2"), kids: []*c07comp{{kind: ckObs}}},
+			{kind: ckHook, kids: []*c07comp{{kind: ckLazy, fs: sfs("l1"), kids: []*c07comp{{kind: ckTee, kids: []*c07comp{{kind: ckObs}, {kind: ckJSON}}}}}}},
 		}
 	}
 	type builder func(g *c07gen, p *c07prog)
@@ -806,6 +1036,47 @@ func c07directed(c *Ctx) {
 			p.w = 5
 			g.derive(p, l, stFields, c07fields{}, nil)
 			logAt(p, l, true, c07fields{}, 8)
+		},
+		// With(a,b).With(c): context of 3 with spare capacity; several entries with one call-site field each from
+		// that same logger, a child derived and the parent logging in between; the earlier entries are re-read
+		// at the end of the history
+		func(g *c07gen, p *c07prog) {
+			ab := g.derive(p, 0, stWith, sfs("a", "b"), nil)
+			cc := g.derive(p, ab, stWith, one(g, "c"), nil)
+			logAt(p, cc, true, one(g, "x"), p.w)
+			logAt(p, cc, true, one(g, "y"), p.w)
+			k := g.derive(p, cc, stWith, one(g, "k"), nil)
+			logAt(p, ab, true, one(g, "p"), p.w)
+			logAt(p, k, true, one(g, "z"), p.w)
+			logAt(p, cc, true, sfs("x2", "y2"), p.w)
+			logAt(p, ab, true, sfs("p2"), p.w)
+		},
+		// With(a,b,c).WithLazy(d) (len 4, cap 6), used through itself and its Named / Sugar clones, which share
+		// its core; mutable call-site fields (the end view is rendered with the world of the call)
+		func(g *c07gen, p *c07prog) {
+			abc := g.derive(p, 0, stWith, sfs("a", "b", "c"), nil)
+			d := g.derive(p, abc, stWithLazy, one(g, "d"), nil)
+			n := g.derive(p, d, stNamed, c07fields{}, []byte("n"))
+			sg := g.derive(p, d, stSugar, c07fields{}, nil)
+			logAt(p, d, true, one(g, "x"), 3)
+			logAt(p, n, true, mutf(g, 3, "y"), 5)
+			logAt(p, sg, true, mutf(g, 0, "z"), 7)
+			logAt(p, d, true, sfs("x2", "y2"), 9)
+			f := g.derive(p, n, stFields, one(g, "f"), nil)
+			logAt(p, f, true, one(g, "v"), 11)
+			logAt(p, abc, true, one(g, "w"), 13)
+		},
+		// a chain built one field at a time (len 5, cap 8): three entries of 1, 2 and 3 call-site fields
+		func(g *c07gen, p *c07prog) {
+			cur := 0
+			for _, k := range []string{"a", "b", "c", "d", "e"} {
+				cur = g.derive(p, cur, stWith, one(g, k), nil)
+			}
+			logAt(p, cur, true, sfs("x"), p.w)
+			logAt(p, cur, true, sfs("y1", "y2"), p.w)
+			logAt(p, cur, true, sfs("z1", "z2", "z3"), p.w)
+			logAt(p, p.parent[cur], true, sfs("q"), p.w)
+			logAt(p, cur, true, sfs("x"), p.w)
 		},
 		// lazy of lazy, child of lazy; order of evaluation
 		func(g *c07gen, p *c07prog) {
@@ -939,6 +1210,12 @@ func (g *c07gen) slogProg(maxNodes int) (string, []*c07sop) {
 	for i := nodes - 1; i >= 0; i-- {
 		handle((i*7 + 3) % nodes)
 	}
+	// second records through handlers that have already handled one
+	for i, k := 0, r.Range(1, 3); i < k; i++ {
+		n := r.Intn(nodes)
+		as, xs := c07attrs(r, r.Range(1, 2))
+		ops = append(ops, &c07sop{kind: 4, node: n, hi: true, msg: "m", attrs: as, xs: xs, w: w})
+	}
 	return name, ops
 }
 
@@ -979,11 +1256,17 @@ func (g *c07gen) slogSiblingProg() (string, []*c07sop) {
 	}
 	as, xs := c07attrs(r, 1)
 	ops = append(ops, &c07sop{kind: 4, node: cur, hi: true, msg: "m", attrs: as, xs: xs, w: w})
+	// every sibling and the parent once more (the first records are re-read at the end)
+	for _, k := range append(append([]int(nil), kids...), cur) {
+		as, xs := c07attrs(r, r.Range(1, 2))
+		ops = append(ops, &c07sop{kind: 4, node: k, hi: true, msg: "m", attrs: as, xs: xs, w: w})
+	}
 	return "", ops
 }
 
 func (g *c07gen) emitSlog(c *Ctx, comp *c07comp, name string, ops []*c07sop) {
-	var opx, obs []SX
+	var opx, obs, end []SX
+	var ws []int64
 	for _, o := range ops {
 		opx = append(opx, o.sx())
 	}
@@ -1005,7 +1288,11 @@ func (g *c07gen) emitSlog(c *Ctx, comp *c07comp, name string, ops []*c07sop) {
 			h := hs[o.node]
 			switch o.kind {
 			case 2:
-				hs = append(hs, h.WithAttrs(o.attrs))
+				as := append([]slog.Attr(nil), o.attrs...)
+				hs = append(hs, h.WithAttrs(as))
+				for i := range as {
+					as[i] = slog.String("POISON", "slice re-used by the caller")
+				}
 			case 3:
 				hs = append(hs, h.WithGroup(o.g))
 			default:
@@ -1014,10 +1301,16 @@ func (g *c07gen) emitSlog(c *Ctx, comp *c07comp, name string, ops []*c07sop) {
 				if o.hi {
 					lvl = slog.LevelWarn
 				}
-				slog.New(h).LogAttrs(context.Background(), lvl, o.msg, o.attrs...)
+				as := append([]slog.Attr(nil), o.attrs...)
+				slog.New(h).LogAttrs(context.Background(), lvl, o.msg, as...)
 				obs = append(obs, L(env.collect()...))
+				for i := range as {
+					as[i] = slog.String("POISON", "slice re-used by the caller")
+				}
+				ws = append(ws, o.w)
 			}
 		}
+		end = env.collectEnd(ws)
 	}()
 	if panicked {
 		c.Viol("a panic escaped the slog handler: "+pmsg, input)
@@ -1035,13 +1328,13 @@ func (g *c07gen) emitSlog(c *Ctx, comp *c07comp, name string, ops []*c07sop) {
 	if groups >= 1 && attrsOps >= 2 {
 		nt = "1"
 	}
-	c.Emit(input, L(obs...), map[string]string{"nt": nt, "class": "slog:" + comp.class(), "groups": fmt.Sprint(groups)})
+	c.Emit(input, L(L(obs...), L(end...)), map[string]string{"nt": nt, "class": "slog:" + comp.class(), "groups": fmt.Sprint(groups)})
 }
 
 func c07(c *Ctx) {
 	c07directed(c)
 	r := NewRNG(c.Seed)
-	nSib, nRand, maxNodes := 900, 1500, 14
+	nSib, nRand, maxNodes := 600, 1300, 14
 	if c.Thorough {
 		nSib, nRand, maxNodes = 12000, 25000, 40
 	}
@@ -1054,6 +1347,15 @@ func c07(c *Ctx) {
 			comp = g.comp(2, false)
 		}
 		g.emit(c, comp, g.siblingProg(), "sib")
+	}
+	nRelog := 500
+	if c.Thorough {
+		nRelog = 12000
+	}
+	for i := 0; i < nRelog; i++ {
+		g := newC07gen(r.Fork())
+		comp := g.relogComp(i)
+		g.emit(c, comp, g.relogProg(), "relog")
 	}
 	for i := 0; i < nRand; i++ {
 		g := newC07gen(r.Fork())
